@@ -95,8 +95,9 @@ pub struct Plan {
 }
 
 /// Post-state monitor + signal conservation after a dump returned / unwound.
-fn judge_after(rep: &mut Report, t: &Target, sender: &Sender, plan: &Plan, outcome: &str, hook_events: &[String], hb_before: &BTreeMap<usize, u64>, sent_before: usize) {
-    let case = json!({"plan": format!("{plan:?}"), "outcome": outcome, "hook_events": hook_events.iter().take(12).collect::<Vec<_>>()});
+#[allow(clippy::too_many_arguments)]
+fn judge_after(rep: &mut Report, t: &Target, sender: &Sender, plan: &Plan, outcome: &str, hook_events: &[String], hb_before: &BTreeMap<usize, u64>, sent_before: usize, soft: &serde_json::Value) {
+    let case = json!({"plan": format!("{plan:?}"), "outcome": outcome, "hook_events": hook_events.iter().take(12).collect::<Vec<_>>(), "soft_errors_of_the_dump": soft});
     let mut tids: Vec<i32> = vec![t.pid];
     tids.extend(t.manifest.tids.iter().copied());
     // (i.a) immediately: nobody is traced any more
@@ -288,6 +289,13 @@ pub fn run(rep: &mut Report, thorough: bool) {
     let places = vec![Where::BeforeAttach, Where::Attached, Where::AfterAttach, Where::ThreadsSuspended, Where::Flushed(1), Where::Flushed(9), Where::Flushed(17), Where::BeforeResume, Where::BeforeDetach, Where::AfterResume, Where::ThreadsEnumerated];
     let reps = if thorough { 6 } else { 1 };
     for _ in 0..reps {
+        // the racy placements (target running, realtime signals around the attach) are repeated
+        for _ in 0..(if thorough { 30 } else { 10 }) {
+            for place in [Where::BeforeAttach, Where::ThreadsEnumerated] {
+                let sigs: Vec<i32> = vec![*rng.pick(&RT), *rng.pick(&RT), *rng.pick(&RT)];
+                plans.push(Plan { place, signals: sigs, group_stop: false, ..base.clone() });
+            }
+        }
         for place in &places {
             for gs in [true, false] {
                 for class in 0..3 {
@@ -343,6 +351,7 @@ pub fn run(rep: &mut Report, thorough: bool) {
             o.crash = None;
         }
         let sent_before = sender.sent.lock().unwrap().len();
+        let burn_stop = Arc::new(AtomicBool::new(false));
         let events: Arc<Mutex<Vec<String>>> = Arc::new(Mutex::new(Vec::new()));
         let placed = Arc::new(AtomicU64::new(0));
         let mut hb_before = BTreeMap::new();
@@ -396,6 +405,24 @@ pub fn run(rep: &mut Report, thorough: bool) {
                 }
             })));
         }
+        // CPU contention for the plans that place signals around the attach while the target keeps
+        // running: the interesting interleavings (a signal dequeued by the tracee between the
+        // tracer's attach and its SIGSTOP) only happen when the tracee is not scheduled at once
+        let burners: Vec<std::thread::JoinHandle<()>> = if !plan.group_stop && matches!(plan.place, Where::BeforeAttach | Where::ThreadsEnumerated | Where::Attached | Where::Stress) {
+            let n = crate::util::threads() + 4;
+            (0..n)
+                .map(|_| {
+                    let stop = burn_stop.clone();
+                    std::thread::spawn(move || {
+                        while !stop.load(Ordering::Relaxed) {
+                            std::hint::spin_loop();
+                        }
+                    })
+                })
+                .collect()
+        } else {
+            Vec::new()
+        };
         // concurrent sender for the stress plan
         let stop = Arc::new(AtomicBool::new(false));
         let stress = if matches!(plan.place, Where::Stress) {
@@ -426,6 +453,10 @@ pub fn run(rep: &mut Report, thorough: bool) {
         let view = d.clone();
         let out = dump::dump_into(&o, &mut d);
         verif_hooks::set_sync(None);
+        burn_stop.store(true, Ordering::SeqCst);
+        for h in burners {
+            let _ = h.join();
+        }
         stop.store(true, Ordering::SeqCst);
         if let Some(h) = stress {
             let _ = h.join();
@@ -455,7 +486,8 @@ pub fn run(rep: &mut Report, thorough: bool) {
         rep.count(&format!("signals_placed[{}]", place_name(&plan.place)), placed.load(Ordering::SeqCst));
         let nontrivial = placed.load(Ordering::SeqCst) > 0 || plan.dest_fault.is_some() || plan.hard_error != 0;
         rep.case(fnv(format!("{plan:?}").as_bytes()), nontrivial);
-        judge_after(rep, &t, &sender, &plan, &outcome, &evs, &hb_before, sent_before);
+        let soft = crate::image::decode(&view.data()).soft_errors().unwrap_or(serde_json::Value::Null);
+        judge_after(rep, &t, &sender, &plan, &outcome, &evs, &hb_before, sent_before, &soft);
         if debug {
             eprintln!("plan {pi} {:?} fault={:?} he={} gs={} -> {} [{} ms] violations={}", plan.place, plan.dest_fault, plan.hard_error, plan.group_stop, outcome, t_plan.elapsed().as_millis(), rep.violations_total);
         }
